@@ -4,6 +4,7 @@ import (
 	"context"
 	"errors"
 	"fmt"
+	"io"
 	"sort"
 	"strings"
 
@@ -14,7 +15,19 @@ func init() { Monitors["C10"] = runC10 }
 
 type ctxKeyT string
 
-var dirtyActions = []string{"set", "adderror", "replace-resp", "replace-req", "abort", "status", "write", "params", "sethandlers-noop", "header", "retain", "params-inplace"}
+var dirtyActions = []string{"set", "adderror", "replace-resp", "replace-req", "abort", "status", "write", "params", "sethandlers-noop", "header", "retain", "params-inplace", "query-mutate", "render-fail", "render-ok"}
+
+// c10Renderer writes part of the page and then fails when asked to.
+type c10Renderer struct{}
+
+func (c10Renderer) Render(w io.Writer, name string, data any, c *rux.Context) error {
+	_, _ = io.WriteString(w, "<h1>"+name+"</h1><p>")
+	if data == "fail" {
+		return errors.New("template execution failed half way")
+	}
+	_, _ = io.WriteString(w, fmt.Sprint(data)+"</p>")
+	return nil
+}
 
 // retainSink collects what handlers kept beyond the end of their request
 // (a Copy() of the context for background work, the Data() map).
@@ -73,6 +86,19 @@ func dirtyContext(c *rux.Context, rec *Rec, actions []string) {
 				c.Params["id"] = "edited-in-place"
 				c.Params["added-in-place"] = "x"
 			}
+		case "query-mutate":
+			// the handler edits the parsed query values it was given
+			q := c.QueryValues()
+			q.Set("page", "99")
+			q.Del("sort")
+			q.Add("added", "x")
+			if vs, ok := c.QueryParams("tag"); ok && len(vs) > 0 {
+				vs[0] = "edited"
+			}
+		case "render-fail":
+			_ = c.Render(200, "page", "fail")
+		case "render-ok":
+			_ = c.Render(200, "page", "ok")
 		case "header":
 			c.SetHeader("X-Dirty-Resp", "1")
 		case "retain":
@@ -97,8 +123,14 @@ func ctxSnapshot(c *rux.Context, rec *Rec) string {
 	if want, ok := rec.Extra["req"]; ok {
 		ownReq = want == any(c.Req)
 	}
-	return fmt.Sprintf("data=%v params={%s} errors=%d first_error=%v aborted=%v status=%d length=%d resp_type=%T raw_writer_is_own=%v req_is_own=%v handler_nil=%v",
-		keys, fmtParams(copyParams(c.Params)), len(c.Errors), c.FirstError(), c.IsAborted(), c.StatusCode(), c.Length(),
+	qv := c.QueryValues()
+	var qk []string
+	for k, vs := range qv {
+		qk = append(qk, k+"="+strings.Join(vs, "|"))
+	}
+	sort.Strings(qk)
+	return fmt.Sprintf("query=%v page=%q data=%v params={%s} errors=%d first_error=%v aborted=%v status=%d length=%d resp_type=%T raw_writer_is_own=%v req_is_own=%v handler_nil=%v",
+		qk, c.Query("page"), keys, fmtParams(copyParams(c.Params)), len(c.Errors), c.FirstError(), c.IsAborted(), c.StatusCode(), c.Length(),
 		c.Resp, c.RawWriter() == any(rec), ownReq, c.Handler() == nil)
 }
 
@@ -113,7 +145,7 @@ func snapMW(c *rux.Context) {
 }
 
 func runC10(e *Env) {
-	e.Rule = "request histories (10..60 requests) on one router built from a generated registration program with an always-first snapshot middleware (or, on routers without any global middleware, the first instrumented handler of the chain snapshots); requests mix static, dynamic, 404, 405 routes; per request a designated handler performs dirtying actions drawn from {Set many keys, AddError x2, replace c.Resp, replace c.Req, Abort, SetStatus, write, assign Params, edit the Params map in place, set a response header, retain a Copy() of the context and its Data() map for 'background work' that writes to them while later requests are being served}, or panics (with an OnPanic hook, or without one so that the panic escapes ServeHTTP and is recovered by the caller), or serves a nested request. Observed by the first handler of every request: Data keys, Params, Errors, IsAborted, StatusCode, Length, type of c.Resp, RawWriter is this request's writer, c.Req is this request, Handler() non-nil, *Context pointer. Oracle (twin): the snapshot and the outcome of the k-th request equal those of the same request sent as the FIRST request to a freshly built identical router. Pooled-context reuse is measured by pointer identity; zero reuse => inconclusive. Non-trivial: a request served by a reused context whose previous user dirtied it; distinct by (program, history prefix)."
+	e.Rule = "request histories (10..60 requests) on one router built from a generated registration program with an always-first snapshot middleware (or, on routers without any global middleware, the first instrumented handler of the chain snapshots); requests mix static, dynamic, 404, 405 routes; per request a designated handler performs dirtying actions drawn from {Set many keys, AddError x2, replace c.Resp, replace c.Req, Abort, SetStatus, write, assign Params, edit the Params map in place, edit the parsed query values, render a template (successfully or failing half way), set a response header, retain a Copy() of the context and its Data() map for 'background work' that writes to them while later requests are being served}, or panics (with an OnPanic hook, or without one so that the panic escapes ServeHTTP and is recovered by the caller), or serves a nested request. Observed by the first handler of every request: parsed query values, Data keys, Params, Errors, IsAborted, StatusCode, Length, type of c.Resp, RawWriter is this request's writer, c.Req is this request, Handler() non-nil, *Context pointer. Oracle (twin): the snapshot and the outcome of the k-th request equal those of the same request sent as the FIRST request to a freshly built identical router. Pooled-context reuse is measured by pointer identity; zero reuse => inconclusive. Non-trivial: a request served by a reused context whose previous user dirtied it; distinct by (program, history prefix)."
 	e.Assumptions = []string{
 		"sequential histories: sync.Pool hands the same *Context back almost always (measured, not assumed)",
 		"a fresh identical router is the specification of 'pristine'",
@@ -126,6 +158,8 @@ func runC10(e *Env) {
 	e.Require("dirty.panic_with_hook", 300)
 	e.Require("dirty.panic_escaping", 100)
 	e.Require("dirty.retain", 300)
+	e.Require("dirty.query-mutate", 300)
+	e.Require("dirty.render-fail", 300)
 	e.Require("kind.not_found", 300)
 	e.Require("kind.not_allowed", 100)
 }
@@ -153,6 +187,7 @@ func c10Case(t *T) {
 				rt.Use(snapMW)
 			}
 		})
+		router.Renderer = c10Renderer{}
 		if hookOn {
 			router.OnPanic = func(c *rux.Context) {
 				recOf(c).Ev("hook")
@@ -174,6 +209,7 @@ func c10Case(t *T) {
 		for k, v := range hdr {
 			req.Header.Set(k, v)
 		}
+		req.URL.RawQuery = hdr["X-RawQuery"]
 		rec := NewRec()
 		rec.Extra = map[string]any{"req": req, "want_snapshot": true, "retain_sink": sk}
 		pv, panicked := catch(func() { rt.ServeHTTP(rec, req) })
@@ -215,6 +251,7 @@ func c10Case(t *T) {
 			}
 			dirty = true
 		}
+		hdr["X-RawQuery"] = pick(r, []string{"", "", "page=1&sort=asc&tag=a", "page=1&sort=asc&tag=a", "q=x"})
 		t.Count("kind."+q.Kind, 1)
 		histDesc = append(histDesc, fmt.Sprintf("#%d %s %v", k, q, hdr))
 
